@@ -445,16 +445,16 @@ func (e *fnEnc) encodeBlock(b *ssa.BasicBlock) {
 			e.obligation("inv", fmt.Sprintf("loop %d:entry:%s", li.ord, clauseLabel(cl, i)), reach, g, cl.Text, cl.Line, false)
 		}
 		// havoc
-		if pi.pass == 1 || pi.loopMods[li.ord]["*"] != "" {
-			// stable cells the loop body itself does not store to keep their value
-			saved := e.saveStable(st, func(a *ssa.Alloc) bool {
-				for _, r := range *a.Referrers() {
-					if s, ok := r.(*ssa.Store); ok && li.body[s.Block()] {
-						return true
-					}
+		// stable cells the loop body itself does not store to keep their value
+		saved := e.saveStable(st, func(a *ssa.Alloc) bool {
+			for _, r := range *a.Referrers() {
+				if s, ok := r.(*ssa.Store); ok && li.body[s.Block()] {
+					return true
 				}
-				return false
-			})
+			}
+			return false
+		})
+		if pi.pass == 1 || pi.loopMods[li.ord]["*"] != "" {
 			pi.epoch++
 			old := st
 			st = &state{m: map[string]Term{}, alloc: st.alloc}
@@ -474,6 +474,13 @@ func (e *fnEnc) encodeBlock(b *ssa.BasicBlock) {
 			for _, c := range comps {
 				st.m[c] = e.freshConst(c+"@L"+fmt.Sprint(li.ord), pi.loopMods[li.ord][c])
 			}
+			var keep []stableVal
+			for _, sv := range saved {
+				if _, havocked := pi.loopMods[li.ord][sv.comp]; havocked {
+					keep = append(keep, sv)
+				}
+			}
+			e.restoreStable(st, keep)
 		}
 		na := e.freshConst("alloc@L"+fmt.Sprint(li.ord), SInt)
 		e.assert(le(st.alloc, na))
